@@ -56,6 +56,8 @@ async fn run_clock(mut clock: HLCTimestamp, reqs: flume::Receiver<Event>) {
         match event {
             Event::Get(tx) => {
                 let ts = clock.send().expect("Clock counter should not overflow");
+                #[cfg(feature = "verif")]
+                crate::verif::record_clock_event((0, 0, clock.as_u64(), ts.as_u64()));
 
                 if clock.counter() >= CLOCK_BACKPRESSURE_LIMIT {
                     tokio::time::sleep(Duration::from_millis(1)).await;
@@ -65,6 +67,8 @@ async fn run_clock(mut clock: HLCTimestamp, reqs: flume::Receiver<Event>) {
             },
             Event::Register(remote_ts) => {
                 let _ = clock.recv(&remote_ts);
+                #[cfg(feature = "verif")]
+                crate::verif::record_clock_event((1, remote_ts.as_u64(), clock.as_u64(), 0));
 
                 if clock.counter() >= CLOCK_BACKPRESSURE_LIMIT {
                     tokio::time::sleep(Duration::from_millis(1)).await;
